@@ -179,7 +179,7 @@ class CodedInputStream {
   template <typename T, std::enable_if_t<std::is_integral_v<T> && sizeof(T) == 1, bool> = true>
   void ReadByte(T& v) {
     if (buffer_ptr_ == buffer_end_ptr_) {
-      FillBuffer();
+      FillBufferOrThrow();
     }
     v = *buffer_ptr_++;
   }
@@ -275,8 +275,10 @@ class CodedInputStream {
   void ReadFixedIntegerSlow(T& value) {
     if (buffer_ptr_ == buffer_end_ptr_) {
       FillBuffer();
-      ReadFixedIntegerFastFromArray(value, buffer_ptr_);
-      return;
+      if (RemainingBufferSpace() >= sizeof(value)) {
+        ReadFixedIntegerFastFromArray(value, buffer_ptr_);
+        return;
+      }
     }
 
     uint8_t bytes[sizeof(T)];
@@ -303,15 +305,18 @@ class CodedInputStream {
   void ReadVarIntegerSlow(T& value) {
     if (buffer_ptr_ == buffer_end_ptr_) {
       FillBuffer();
-      ReadVarIntegerFastFromArray(value, buffer_ptr_);
-      return;
+      // the unchecked decoder may only be used if a maximum-length encoding fits
+      if (RemainingBufferSpace() >= (sizeof(T) * 8 + 6) / 7) {
+        ReadVarIntegerFastFromArray(value, buffer_ptr_);
+        return;
+      }
     }
 
     value = 0;
     int shift = 0;
     while (true) {
       if (buffer_ptr_ == buffer_end_ptr_) {
-        FillBuffer();
+        FillBufferOrThrow();
       }
       uint8_t byte = *buffer_ptr_++;
       value |= static_cast<T>(byte & 0x7F) << shift;
@@ -340,6 +345,15 @@ class CodedInputStream {
     auto bytes_read = stream_.gcount();
     buffer_ptr_ = buffer_.data();
     buffer_end_ptr_ = buffer_ptr_ + bytes_read;
+    return bytes_read;
+  }
+
+  // Refills the buffer and throws if the stream has no more data.
+  size_t FillBufferOrThrow() {
+    size_t bytes_read = FillBuffer();
+    if (bytes_read == 0) {
+      throw EndOfStreamException();
+    }
     return bytes_read;
   }
 
